@@ -1084,7 +1084,12 @@ impl Snapshot {
 }
 
 /// Manifest: tracks valid snapshots and WAL segments
+///
+/// Unknown keys are rejected: a damaged key name (e.g. in `latest_snapshot`) would otherwise be
+/// ignored, the optional field would silently default to `None`, and recovery would start from
+/// the retained WAL alone.
 #[derive(Debug, Clone, Serialize, Deserialize)]
+#[serde(deny_unknown_fields)]
 pub struct Manifest {
     pub version: u32,
     pub latest_snapshot: Option<String>,
